@@ -309,6 +309,7 @@ def run(chk):
     _order_rule(chk, prog)
     _unary_rule(chk, prog, boot)
     _spliceform_rule(chk, prog)
+    _cmpnum_rule(chk, prog)
 
 
 def _jumppair_rule(chk, prog):
@@ -807,3 +808,42 @@ def _spliceform_rule(chk, prog):
                           "operand: (if (<=> nil ;[]) ...) written with the function value is compiled as a nil test of the splice form "
                           "itself, while the same call through the function gives the result for the spliced arguments" % (fn.name, lens[0].text()[:40]))
     chk.floor(rule, 1, n)
+
+
+def _cmpnum_rule(chk, prog):
+    """< <= > >= on two numbers are IEEE comparisons: false whenever an operand is NaN.  janet_compare is a TOTAL order
+    for sorting (NaN is placed somewhere), so an ordering instruction may fall back to it only for operands that are not
+    both numbers.  Every ordering instruction - the register forms and the immediate forms alike - has to keep the
+    numeric path in front of janet_compare, or the inline form and the function disagree on NaN."""
+    from jv.vm import VMHandlers
+    rule = "C15-CMPNUM"
+    chk.rule(rule, "every ordering instruction reaches janet_compare only for operands that failed the both-are-numbers test (NaN stays unordered)")
+    vm = VMHandlers(prog)
+    n = 0
+    ORDER = ("LESS_THAN", "GREATER_THAN", "LESS_THAN_EQUAL", "GREATER_THAN_EQUAL", "LESS_THAN_IMMEDIATE", "GREATER_THAN_IMMEDIATE")
+    seen = set()
+    for x in vm.fn.nodes:
+        h = vm.handler_of(x) or ""
+        op = h.replace("label_JOP_", "")
+        if op not in ORDER or not (x.k == "call" and x.callee == "janet_compare"):
+            continue
+        n += 1
+        seen.add(op)
+        chk.instance(rule)
+        guarded = False
+        child = x
+        for a in x.ancestors():
+            if a.k == "if" and len(a.kids) >= 3 and a.kids[2] is not None and any(y is child for y in [a.kids[2]] + list(a.kids[2].walk())):
+                if any("JANET_NUMBER" in y.text() for y in a.kids[0].walk() if y.k in ("ref", "call", "bin")):
+                    guarded = True
+            child = a
+        if guarded:
+            chk.ok(rule, "%s: janet_compare only in the not-both-numbers branch" % op)
+        else:
+            chk.violation(rule, "vm.c", "run_vm", "%s:compare" % op, x.loc,
+                          "in %s `%s` is not confined to the branch where the operands failed the number test: with a NaN operand the "
+                          "instruction answers by janet_compare's total order (NaN > every number) while the other forms of the same "
+                          "comparison answer false" % (op, x.text()[:50]))
+    missing = [o for o in ORDER if o not in seen]
+    if missing:
+        raise AnalysisBroken("ordering instructions without janet_compare fallback not recognised: %s" % missing)
